@@ -14,13 +14,16 @@ ATOM_CALLS = ["Potential.finite.build", "Potential.generate_slices", "Potential(
               "FrozenPhonons.randomize", "PlaneWave.multislice(atoms)", "Probe.scan(atoms)", "SMatrix(atoms)", "CrystalPotential",
               "Potential.to_images", "flip_atoms", "merge_close_atoms", "orthogonalize_cell", "orthogonalize_cell_origin", "orthogonalize_cell_plane", "standardize_cell", "Potential", "Potential.build",
               "FrozenPhonons", "FrozenPhonons.build", "StructureFactor", "BlochWaves", "pad_atoms", "cut_cell", "rotate_atoms_to_plane",
-              "atoms_in_cell", "wrapped", "shrink_cell", "is_cell_orthogonal", "rotate_atoms"]
+              "atoms_in_cell", "wrapped", "shrink_cell", "is_cell_orthogonal", "rotate_atoms",
+              "SlicedAtoms", "SliceIndexedAtoms", "ChargeDensityPotential.build", "show_atoms"]
 # structures each entry point is fed (default: all families); an entry point that never succeeds in a run fails the check
 ATOM_KINDS = ["graphene", "hex-bulk", "fcc-primitive", "mos2", "sheared", "cubic", "cubic-permuted", "cubic-rotated"]
 ATOM_KINDS_FOR = {"standardize_cell": ["cubic", "cubic-permuted", "cubic-rotated", "cubic-rotated"],
                   "rotate_atoms_to_plane": ["hex-bulk", "fcc-primitive", "sheared", "cubic", "cubic-permuted"],
                   "FrozenPhonons.build": ["graphene", "hex-bulk", "fcc-primitive", "mos2", "cubic"],
-                  "shrink_cell": ["graphene", "hex-bulk", "fcc-primitive", "sheared", "cubic"]}
+                  "shrink_cell": ["graphene", "hex-bulk", "fcc-primitive", "sheared", "cubic"],
+                  "SlicedAtoms": ["cubic", "cubic", "graphene"], "SliceIndexedAtoms": ["cubic", "cubic", "graphene"],
+                  "ChargeDensityPotential.build": ["cubic", "cubic-permuted"]}
 MEAS_METHODS = ["real", "imag", "phase", "abs", "intensity", "interpolate", "crop", "gaussian_filter", "tile", "mean", "sum",
                 "to_cpu", "copy", "poisson_noise", "__getitem__", "squeeze", "expand_dims", "__add__", "__mul__", "normalize_ensemble",
                 "relative_difference", "interpolate_line_at_position", "center_of_mass", "integrate_radial", "block_direct",
@@ -188,6 +191,31 @@ def call_atoms(name, a, rng):
         return AT.is_cell_orthogonal(a)
     if name == "rotate_atoms":
         return AT.rotate_atoms(a, axes="zxz", angles=(0.3, 0.1, 0.0))
+    if name in ("SlicedAtoms", "SliceIndexedAtoms"):
+        # direct users of the slicing classes hand over their own object: it is stored without a copy (`self._atoms = atoms`)
+        from abtem import slicing as SL
+        sl = getattr(SL, name)(a, 1.0 if name == "SlicedAtoms" else 2.0)
+        n = len(sl)
+        out = [sl.get_atoms_in_slices(0, n - 1), sl.get_atoms_in_slices(0), list(sl.generate_atoms_in_slices()), sl[0:max(n - 1, 1)]]
+        out.append((sl.slice_limits, sl.slice_thickness, sl.box, sl.num_slices))
+        got = sl.get_atoms_in_slices(0, n - 1)          # the returned slab must not be a view of the caller's arrays either
+        if len(got):
+            got.positions[:] += 1.0
+            got.numbers[:] = 1
+        return out
+    if name == "ChargeDensityPotential.build":
+        from abtem.potentials.charge_density import ChargeDensityPotential
+        import numpy as np
+        rho = np.abs(np.asarray(rng.random() + np.arange(6 * 6 * 8, dtype=float).reshape(6, 6, 8) % 5)) * 1e-2
+        return ChargeDensityPotential(a, charge_density=rho, sampling=0.5, slice_thickness=2.0).build(lazy=False)
+    if name == "show_atoms":
+        import matplotlib
+        matplotlib.use("Agg")
+        import matplotlib.pyplot as plt
+        try:
+            return [abtem.show_atoms(a, plane=pl, merge=mg, legend=lg) for pl, mg, lg in (("xy", 0.1, False), ("xz", 0.0, True), ("yz", 0.5, False))]
+        finally:
+            plt.close("all")
     raise ValueError(f"unknown entry point {name}")
 
 
